@@ -1,10 +1,17 @@
 (* Props/C06.v — no query ever modifies its sources.
-   What is a theorem here: the sqlite clause (only accepted identifiers are ever interpolated, and the only
-   statement ever sent is SELECT * FROM <identifier>;).  The engine model is purely functional - its inputs are
-   immutable values - so "the input lists are unchanged / not aliased" cannot be violated IN the model and is not
-   claimed as a theorem: that clause rests on the correspondence run (deep snapshots and object identity of every
-   row before/after, file hashes, SQL trace), see DESIGN.md section 4, C06 (level: partial). *)
-From RBQL Require Import Base Sqlite Sqlite_Proofs.
+   Theorems here:
+   (1) the sqlite clause (only accepted identifiers are ever interpolated, and the only statement ever sent is
+       SELECT * FROM <identifier>;);
+   (2) the list clause, over the heap IR of Heap.v (objects with identity, aliasing, in-place mutation): a program
+       accepted by the ownership analyser [safe], run against any chain of accepted writers, leaves every source
+       object with its original content and hands no source object to any writer, on every execution path including
+       every early exit (C06_ownership_sound, C06_writers_safe).  The IR terms for the real per-record programs and
+       writer methods are NOT in this file: harness/translate_heap.py regenerates them from the implementation's
+       source text on every check run (build/gen/heap_<pid>/HeapFacts.v), with one obligation
+       gen_<program>_safe : safe [] <program> = true and the instantiated corollary gen_<program>_sources_unchanged
+       per program; harness/props/c06.py compiles that file and reports a broken obligation as a violation.
+   The Engine.v model stays purely functional; dataframes, files and the sqlite file are observed only. *)
+From RBQL Require Import Base Sqlite Sqlite_Proofs Heap Heap_Proofs.
 
 Theorem C06_sqlite_identifier : forall name,
   sqlite_accepts name = true <-> Forall (fun c => is_word c = true) name.
@@ -37,3 +44,68 @@ Example C06_nonvacuous :
   /\ sqlite_accepts [34; 98; 34]%N = false.                     (* "b" *)
 Proof. repeat split. Qed.
 Print Assumptions C06_nonvacuous.
+
+(* ------------------------------------------------------------------ the list clause over the heap IR (Heap.v) *)
+
+(* srcs: the source objects (rows of the input and join tables and the engine's containers of them).
+   prog: the main-loop program (binds its records itself: RSrc); c0: variables known not to denote a source at start
+   (the generated obligations use c0 = []: every variable that is not freshly bound may alias a source).
+   ws: the writer chain, top first.  The conclusion holds for every run the relation contains: any branch, any number
+   of iterations, an exception at any statement (of the program or of any writer), finish run or not. *)
+Theorem C06_ownership_sound : forall srcs c0 prog ws e0 g g',
+  safe c0 prog = true ->
+  Forall (fun w => writer_ok w = true) ws ->
+  (forall x i, In x c0 -> e0 x = Some i -> ~ In i srcs) ->
+  wf srcs g ->
+  run_query srcs prog ws e0 g g' ->
+  (forall i, In i srcs -> g_heap g' i = g_heap g i) /\ (forall i, In i (g_log g') -> ~ In i srcs).
+Proof. exact ownership_sound. Qed.
+Print Assumptions C06_ownership_sound.
+
+(* the writers alone: an accepted chain that is only ever handed non-source objects never touches a source, whatever
+   it mutates, keeps and forwards *)
+Theorem C06_writers_safe : forall srcs ws handed g g',
+  Forall (fun w => writer_ok w = true) ws ->
+  Forall (fun i => ~ In i srcs) handed ->
+  wf srcs g ->
+  feed_chain srcs ws handed g g' ->
+  (forall i, In i srcs -> g_heap g' i = g_heap g i) /\ (forall i, In i (g_log g') -> ~ In i srcs).
+Proof. exact writers_safe. Qed.
+Print Assumptions C06_writers_safe.
+
+(* non-vacuity 1: the aliasing defect is expressible - "x = source; y = x; y[0] = v" is rejected by the analyser and
+   the semantics has a run of it that rewrites the source *)
+Example C06_alias_rejected_and_harmful :
+  safe [] ex_alias = false /\
+  wf [0] ex_g0 /\
+  exists g', run_query [0] ex_alias [w_any] env_empty ex_g0 g' /\ g_heap g' 0 <> g_heap ex_g0 0.
+Proof. exact alias_rejected_and_harmful. Qed.
+Print Assumptions C06_alias_rejected_and_harmful.
+
+(* non-vacuity 2: with the copy the program is accepted, the most general user writer is accepted, and the
+   hypotheses are satisfied by a run in which the copy is mutated, emitted and mutated again by the writer *)
+Example C06_copy_accepted_and_runs :
+  safe [] ex_copy = true /\ writer_ok w_any = true /\
+  exists g', run_query [0] ex_copy [w_any] env_empty ex_g0 g' /\ g_log g' = [1] /\ g_heap g' 1 = Some [9]
+             /\ g_heap g' 0 = Some [7].
+Proof. exact copy_accepted_and_runs. Qed.
+Print Assumptions C06_copy_accepted_and_runs.
+
+(* the instance every generated corollary gen_<program>_sources_unchanged is obtained from: nothing is assumed about
+   the variables of the program (c0 = []), the chain is any sequence of writer classes taken from an accepted list *)
+Theorem C06_program_sources_unchanged : forall pool prog,
+  safe [] prog = true ->
+  forallb writer_ok pool = true ->
+  forall srcs ws e0 g g',
+    incl ws pool -> wf srcs g -> run_query srcs prog ws e0 g g' ->
+    (forall i, In i srcs -> g_heap g' i = g_heap g i) /\ (forall i, In i (g_log g') -> ~ In i srcs).
+Proof. exact program_sources_unchanged. Qed.
+Print Assumptions C06_program_sources_unchanged.
+
+(* non-vacuity 3 (cells): rows are copied shallowly, so mutating a cell reached through a fresh copy is rejected, and the
+   semantics has a run in which that mutation rewrites a source object *)
+Example C06_cell_mutation_rejected_and_harmful :
+  safe [] ex_cell = false /\
+  exists g', run_query [0] ex_cell [w_any] env_empty ex_g0 g' /\ g_heap g' 0 <> g_heap ex_g0 0.
+Proof. exact cell_mutation_rejected_and_harmful. Qed.
+Print Assumptions C06_cell_mutation_rejected_and_harmful.
